@@ -118,6 +118,11 @@ def gen_inputs(rnd, terms, asts, n, maxtok=14):
             elif y < 0.83: parts.append(bytes([rnd.choice([0, 0x7f, 0x80, 0xff, 0x3f, 0x40, 0x60])]))
             if rnd.random() < (0.5 if x < 0.5 else 0.1): parts.append(bytes(rnd.choice(b' \t\n\r\x0b\x0c') for _ in range(rnd.choice([1, 1, 2]))))
         outs.append(b''.join(parts))
+    # lexemes longer than 65535 bytes
+    for a in asts:
+        big = rr.long_sample(a, rnd, rnd.choice([65536, 65537, 70000, 140000]))
+        if big is not None:
+            outs.append(big); outs.append(rr.sample_string(rnd.choice(asts), rnd) + b' ' + big + b' ' + rr.sample_string(rnd.choice(asts), rnd)); break
     outs += [b'', b' ', b'\n', b' \t\r\n\x0b\x0c']
     return list(dict.fromkeys(outs))
 
